@@ -113,6 +113,55 @@ def run(ctx):
             elif kind == "render-plain" and last_render is not None and last_render.startswith("ok") and real.startswith("ok"):
                 if strip_lines(last_render) != strip_lines(real):
                     ctx.fail("two layouts of the same program parse to different trees", {"plain_layout": src})
+    # a caller who has turned warnings into errors reads every text the same way (F23: unknown escapes in quoted strings used to raise DeprecationWarning)
+    import warnings as _warnings
+    reads = {}
+    for src in srcs:
+        if src not in reads:
+            reads[src] = parsing.real_parse(src)
+    for src, real in reads.items():
+        if "\\" not in src and ctx.dist.get("strict_warnings_parses", 0) > 600:
+            continue
+        ctx.count("strict_warnings_parses")
+        try:
+            with _warnings.catch_warnings():
+                _warnings.simplefilter("error")
+                strict = parsing.canon_program(_Parser().parse(src))
+        except SyntaxError:
+            strict = "syntax"
+        except Exception as e:
+            strict = "raw:" + type(e).__name__
+        if strict != real:
+            ctx.fail("with warnings turned into errors by the caller the text is read differently (%s)" % strict[:60], {"source": src, "default": real[:600], "warnings_as_errors": strict[:600]})
+    # several threads, each with a Parser of its own, reading different texts at the same time: every one gets what a lone parser reads
+    import sys as _sys, threading
+    texts = [s_ for s_, r_ in reads.items() if len(s_) < 2000][: ctx.budget(480, 4000)]
+    nthreads = 8
+    parsers = [_Parser() for _ in range(nthreads)]
+    got_par = [None] * len(texts)
+    barrier = threading.Barrier(nthreads)
+
+    def worker(k):
+        barrier.wait()
+        for i in range(k, len(texts), nthreads):
+            got_par[i] = parsing.real_parse(texts[i], parser=parsers[k])
+    old_interval = _sys.getswitchinterval()
+    _sys.setswitchinterval(1e-5)
+    try:
+        ths = [threading.Thread(target=worker, args=(k,)) for k in range(nthreads)]
+        for t in ths:
+            t.start()
+        for t in ths:
+            t.join()
+    finally:
+        _sys.setswitchinterval(old_interval)
+    wrong = [i for i in range(len(texts)) if got_par[i] != reads[texts[i]]]
+    ctx.count("concurrent_parses", len(texts))
+    if wrong:
+        i = wrong[0]
+        ctx.fail("%d of %d texts are read differently when %d threads parse at the same time, each with its own Parser" % (len(wrong), len(texts), nthreads),
+                 {"source": texts[i], "alone": reads[texts[i]][:600], "concurrently": (got_par[i] or "")[:600], "threads": nthreads,
+                  "how": "8 threads, one Parser each (created beforehand), texts dealt round-robin, switch interval 1e-5 s"})
     # known findings (listed in known_findings.json): re-run each witness against the real parser
     from mpilot.parser.parser import Parser
     for fid, src, want, what in F10_WITNESSES:
